@@ -214,6 +214,9 @@ func runC08(c *Ctx) {
 	checkBufferTypestate(c, fns)
 
 	// ---------------------------------------------------------------- R4
+	c.cur = c.Prop + "-R7"
+	checkReaderDoneWakesWaiters(c)
+
 	c.rule("R8", "the retry loop runs under the caller's own context: attempts and dials get the context the caller passed, not one with a deadline added on the way (with an added deadline the retry that follows a dead reused connection is already out of time)", 6)
 	checkCallerCtxPassedOn(c, p.funcsIn(relTransport))
 	checkCtxCallsGetCallerCtx(c, p.funcsIn(relTransport))
